@@ -29,6 +29,7 @@ EXPLANATION = (
 EXPLANATION += (' Added after the audit wave: C20.5 the delays searched by SYNC are 0 .. l-1 and no more (lag l ties with lag 0 on a repeated pattern); C20.3 the memory clamp of set_data measures the converted, tiled array on its last axis and cuts columns, not rows.')
 EXPLANATION += (' Second audit wave: C20.3 set_data and get_data both bring start_addrs into [1, MAX_MEMORY_LEN] before using it (sibling agreement).')
 EXPLANATION += (' Wave 14: C20.4 a running address that is advanced block by block inside a loop is set back inside the enclosing channel loop (get_data, set_data and the helpers they call): every channel is transferred from the same start address.')
+EXPLANATION += (' Neutral wave 7: the interval interpreter follows callable values (a lambda or nested def handed to a helper that builds the command), map, generator expressions, np.clip(x, *limits) and string concatenation of command pieces; a helper that returns (clamped values, True) from its clamp branch and (values, False) otherwise hands the caller a flag that is True exactly when the clamp was taken, and the caller warning under that flag is the warning C20.2 asks for.')
 TRUSTED = ["numpy clip/arange/tile/split semantics", "IEEE-488.2 definite-length block header format #<k><n>", "documented PPG3204 limits as listed in the property statement"]
 
 DOCUMENTED = {"CHANNELS": 4, "PATT_LEN_MIN": 2, "PATT_LEN_MAX": 2 ** 21, "AMPLITUDE_MIN": 0.3, "AMPLITUDE_MAX": 2, "OFFSET_MIN": -2, "OFFSET_MAX": 3,
@@ -183,6 +184,7 @@ def run(ctx):
                           f"`{nm}` is an ndarray here; `{{{nm}:{spec}}}` raises TypeError, so an out-of-range request raises instead of being clamped with a warning")
         for (ifn, has_clip, has_warn, has_raise) in ii.branch_info:
             if has_clip:
+                has_warn = has_warn or ifn in ii.flag_warned
                 ok = has_warn and not has_raise
                 ctx.check("C20.2", ok, m, ifn, f"{m.qualname}: out-of-range branch `{src_of(ifn.test)[:80]}`", "clamp and warn, no raise",
                           "the out-of-range branch " + ("raises" if has_raise else "does not issue a warning"))
@@ -337,7 +339,9 @@ def run(ctx):
                         why.append("payload is not the joined bit characters of the block")
             else:
                 why.append("command does not have the six fields ch, addr, n, #k n data")
-            if missing and not why:
+            if not ok and _framing_by_value(ctx, ci.methods["set_data"]):
+                pass        # a field holds a piece built elsewhere (`{block}` = '#kn' + payload from a helper): decided on the value of the whole string
+            elif missing and not why:
                 # the block loop is written in another idiom (blocks precomputed, addresses from a list ...): decide on the value of the
                 # command string if possible, otherwise say that it is not decided - a missing match is not a violation
                 if not _framing_by_value(ctx, ci.methods["set_data"], strict=True):
@@ -720,8 +724,17 @@ def _framing_by_value(ctx, sd, strict=False):
         start = S("start_addrs")
         if aa and aa[0] == "loop":
             var = aa[1].split("@")[0]
-            inits = [v for f_, st_, nm, v, c_, d_ in it.assign_log if nm == var and not in_loop(st_)]
-            upds = [v for f_, st_, nm, v, c_, d_ in it.assign_log if nm == var and in_loop(st_)]
+            # "in the loop" = in the block loop, the innermost loop around the command; `p = start_addrs` in the channel loop around it starts every channel
+            from ..rules import parents
+            inner = next((p_ for p_ in parents(r.node) if isinstance(p_, (ast.For, ast.While))), None)
+            in_block_loop = (lambda st_: any(p_ is inner for p_ in parents(st_))) if inner is not None else in_loop
+            inits = [(v, st_) for f_, st_, nm, v, c_, d_ in it.assign_log if nm == var and not in_block_loop(st_)]
+            upds = [v for f_, st_, nm, v, c_, d_ in it.assign_log if nm == var and in_block_loop(st_)]
+            if inits and isinstance(inits[-1][1], ast.Assign) and isinstance(inits[-1][1].value, ast.Name) and inits[-1][1].value.id == "start_addrs" \
+                    and inits[-1][1] in body_nodes(sd):
+                inits = [start]         # the (clamped) start address as it stands at that point
+            else:
+                inits = [v for v, st_ in inits]
             if not (inits and vk(inits[-1]) == vk(start)):
                 why_addr.append("the address does not start at start_addrs")
             if not (upds and all(isinstance(u, Form) and vk(u - addr) == vk(n_) for u in upds)):
@@ -762,8 +775,15 @@ def _reassembly_by_value(ctx, gd):
     atoms = rets[0].value.atoms()
     def block_list(x):
         # a list with one entry per block read: the body holds the read command, the sequence iterated over does not
-        return x[0] == "fn" and x[1] == "listcomp" and len(x[2]) == 2 and reads(x[2][0]) and not reads(x[2][1])
-    per_block = [x for x in atoms if block_list(x) and not any(block_list(y) for y in x[2][0].atoms())]
+        # ... or a list made element by element from such a list ([parse(b) for b in answers]): still one entry per block
+        if not (x[0] == "fn" and x[1] == "listcomp" and len(x[2]) == 2):
+            return False
+        if reads(x[2][0]) and not reads(x[2][1]):
+            return True
+        sa_ = x[2][1].single_atom() if isinstance(x[2][1], Form) else None
+        return sa_ is not None and block_list(sa_)
+    mapped_over = {vk(x[2][1]) for x in atoms if block_list(x) and isinstance(x[2][1], Form) and x[2][1].single_atom() is not None and block_list(x[2][1].single_atom())}
+    per_block = [x for x in atoms if block_list(x) and not any(block_list(y) for y in x[2][0].atoms() if vk(Form.atom(y)) not in mapped_over) and vk(Form.atom(x)) not in mapped_over]
     if len(per_block) != 1:
         return False
     blk = Form.atom(per_block[0])
